@@ -257,6 +257,85 @@ int main(int argc, char **argv) {
             plan.stages.insert(plan.stages.begin(), micro_stages.begin(), micro_stages.end());
             plan.bounds += " micro=" + std::to_string(mk);
         }
+        {
+            // N nested loops over an N-deep tree of two-item arrays (N = 1..12, 17): every enclosing loop runs on after the innermost
+            // one was entered, so whatever a frame keeps of the per-render loop-item storage must survive the growth of that
+            // storage; the leaves come out in order. Plain, sorted and with an <if> between the levels.
+            vx::Stage sd;
+            sd.name   = "deep-loop-nesting";
+            sd.chunks = 13;
+            sd.hang_s = 120;
+            sd.fn     = [](int64_t chunk, vx::Ctx &ctx) {
+                const int N = chunk < 12 ? (int)chunk + 1 : 17;
+                for (int variant = 0; variant < 3; variant++) {
+                    if (!ctx.next()) {
+                        continue;
+                    }
+                    if (ctx.want_desc()) {
+                        ctx.describe(std::to_string(N) + " nested loops over two-item arrays, variant " + std::to_string(variant));
+                    }
+                    ctx.acc.count("states");
+                    // value: N-deep tree, leaves numbered in order; expected output "0,1,2,...,"
+                    unsigned          next_leaf = 0;
+                    std::string       want;
+                    std::function<Value<char>(int)> build = [&](int d) -> Value<char> {
+                        Value<char> a;
+                        for (int k = 0; k < 2; k++) {
+                            if (d == 1) {
+                                a += SizeT64(next_leaf);
+                                want += std::to_string(next_leaf++) + ",";
+                            } else {
+                                a += build(d - 1);
+                            }
+                        }
+                        return a;
+                    };
+                    const int   depth = N > 12 ? 12 : N; // 17 loops: the inner five run over scalars' parents only once (set missing => nothing)
+                    Value<char> root  = build(depth);
+                    std::string tpl;
+                    for (int d = 0; d < depth; d++) {
+                        const std::string v = "v" + std::to_string(d);
+                        tpl += "<loop" + (d ? " set=\"v" + std::to_string(d - 1) + "\"" : std::string()) + " value=\"" + v + "\"" +
+                               ((variant == 1 && (d & 1)) ? " sort=\"ascend\"" : "") + ">";
+                        if (variant == 2) {
+                            tpl += "<if case=\"1\">";
+                        }
+                    }
+                    tpl += "{var:v" + std::to_string(depth - 1) + "},";
+                    for (int d = 0; d < depth; d++) {
+                        tpl += variant == 2 ? "</if></loop>" : "</loop>";
+                    }
+                    if (N > 12) {
+                        // five more loops around a set that does not exist, inside the innermost level: nothing is printed for them
+                        std::string inner;
+                        for (int d = 0; d < 5; d++) {
+                            inner += "<loop set=\"missing\" value=\"m" + std::to_string(d) + "\">";
+                        }
+                        inner += "x";
+                        for (int d = 0; d < 5; d++) {
+                            inner += "</loop>";
+                        }
+                        const size_t at = tpl.find("{var:v");
+                        tpl.insert(at, inner);
+                    }
+                    static langx::Exact<char> ex;
+                    Text                      t(tpl.begin(), tpl.end());
+                    const char               *p = ex.put(t);
+                    StringStream<char>        ss;
+                    ss += '#';
+                    Template::Render(p, SizeT(t.size()), root, ss);
+                    ctx.acc.count("evals");
+                    const std::string got(ss.First() ? ss.First() : "", ss.Length());
+                    if (got != "#" + want) {
+                        ctx.fail("deep-loop-nesting N=" + std::to_string(N) + " variant " + std::to_string(variant),
+                                 "rendered '" + got.substr(0, 120) + "...' (" + std::to_string(got.size()) + " units), the leaves in order are '#" + want.substr(0, 60) + "...' (" +
+                                     std::to_string(want.size() + 1) + " units)");
+                    }
+                    ctx.acc.outcome(vx::hstr(got));
+                }
+            };
+            plan.stages.insert(plan.stages.begin(), sd);
+        }
         plan.assumptions = {"ASan/UBSan (asan variants, with and without the exact-fit growth hook) or a PROT_NONE page behind the text (fast variant)",
                             "UBSan groups: bounds,null,integer-divide-by-zero,pointer-overflow,object-size,alignment"};
         return plan;
